@@ -192,6 +192,11 @@ def run(repo, chk):
         always = inval.always(fn)
         chk.ob('e', fn.ref, f'the memo of the root of the tree the child {what} is invalidated on every path', 'self.root' in always, loc(fn, fn.node),
                detail=f'always invalidated: {sorted(always)}', discr=f'memo-invalidated:{fn.name}')
+    inv_nodes = {n for n in g.nodes if 'self' in inval.node_invalidates(n, func=done)}
+    p = Q.escapes(g, [g.entry], lambda n: n in inv_nodes, avoid_edge=stale)
+    chk.ob('e', done.ref, 'a component that completes its unregistration (and becomes a root again) invalidates its own memo: what it memoised in an earlier '
+                          'life as root knows nothing of the children it gained or lost since', p is None and bool(inv_nodes), loc(done, done.node),
+           path=pat.path_lines(p) if p else None, discr='own-memo-invalidated')
     # ---- _updateRoot ----------------------------------------------------------
     g = upd.cfg()
     rp = upd.params[1]
